@@ -55,7 +55,7 @@ claimed = {
    ref="7 (C09)"),
  "C03": dict(
    text="Proof: every typed constructor of package zap (69 functions: scalars, pointer variants, slice wrappers, NamedError/Error, Reflect/Stringer/Object/Inline/Namespace/Skip) yields exactly the tagged-union field its documentation announces, for all values of the parameter type (bit-vector arithmetic for every cast); pointer variants give the explicit-null field for nil; Field.Equals never panics on well-formed fields (comparability obligations on ==).",
-   note=BASE_NOTE + "zap.Any's 80-way dispatch (interface method call through a generic function value) is outside the executor's subset: its contract is marked trusted and NOT counted as proved; Time/Timep/Stack/Dict/generic slice constructors and zapfield are not under contract yet; Equals' reflexivity/symmetry are not proved (reflect.DeepEqual and NaN payloads).",
+   note=BASE_NOTE + "zap.Any's dispatch (interface method call through a generic function value) is outside the executor's subset: its contract is marked trusted and NOT counted as proved; in its place a BOUNDED stand-in runs on every check (evidence coverage.bounded): every case of the type switch, enumerated from field.go on that run, zero value plus 40 pseudo-random values per case type, compared with the typed constructor by DeepEqual, plus the documented precedence of the interface cases and the reflection fallback; Time/Timep/Stack/Dict/generic slice constructors and zapfield are not under contract yet; Equals' reflexivity/symmetry are not proved (reflect.DeepEqual and NaN payloads).",
    ref="7 (C03)"),
  "C06": dict(
    text="Proof of the call chain for every front end under contract (Logger.{Debug..Fatal,Log,Check}, all 32 SugaredLogger methods via log/logln, zapgrpc Fatal/Fatalln/Fatalf): exactly one check at the method's level; at Panic/Fatal (DPanic in development) the checked entry is non-nil and carries override(default, configured hook) whether or not the level is enabled or the core accepts; CheckedEntry.Write writes every core exactly once, in order, then runs the hook exactly once; default actions panic / call exit.With(1); ioCore.Write syncs after a successful write above Error.",
